@@ -3,12 +3,17 @@
    machine of Model/Conn.v with the handler, the reader, the serialiser and the error conversion as Section variables,
    are Model/Server.v's handle_once and conn_loop -- for every connection state, input, handler and permit history. *)
 From Coq Require Import List NArith Bool.
-From SV Require Import Base.Bytes Base.IO Base.SrcAst Model.Conn Model.Server Generated.SourceParams.
+From SV Require Import Base.Bytes Base.IO Base.SrcAst Model.Conn Model.Server Model.ConnInst Generated.SourceParams.
 Import ListNotations.
 Open Scope N_scope.
 
 Lemma conn_loop_translated : src_problems_conn_loop = 0%nat.
 Proof. reflexivity. Qed.
+
+(* what HttpServerBuilder::spawn (src/lib.rs) turns a panicking handler into, as read on this run, is the answer the
+   concrete instance (and the driver's scripted handler) uses *)
+Lemma panic_answer_tie : src_panic_status = panic_code /\ src_panic_text = panic_text /\ src_problems_spawn = 0%nat.
+Proof. repeat split. Qed.
 
 Definition herr_of (e : once_err) : herr :=
   match e with
